@@ -516,7 +516,26 @@ def shortcut(draw, n: int) -> int:
     return mask_of(n, edges)
 
 
-FAMILIES = {'dag': dag_biased, 'cyclic': cycle_biased, 'forest': forest,
+@st.composite
+def via_root(draw, n: int) -> int:
+    """Two synsets a, b that share a real hypernym over a long route (a -> x1 -> ... -> xk = b
+    with b a root, k >= 3) while both are close to *some* root (a -> r, r a root): with a
+    simulated root the shortest connection runs a, r, *ROOT*, b (length 3 < k + 1).
+    Needs n >= 6."""
+    if n < 6:
+        return draw(layered(n))
+    order = draw(_perm(n))
+    a, r = order[0], order[1]
+    chain = order[2:n] if draw(st.booleans()) else order[2:6]
+    edges = [(a, r), (a, chain[0])] + [(chain[i], chain[i + 1]) for i in range(len(chain) - 1)]
+    for k in range(2 + len(chain), n):
+        # extra nodes hang below existing non-root nodes
+        y = draw(st.sampled_from([a] + list(chain[:-1])))
+        edges.append((order[k], y))
+    return mask_of(n, edges)
+
+
+FAMILIES = {'dag': dag_biased, 'cyclic': cycle_biased, 'forest': forest, 'via-root': via_root,
             'diamonds': diamond_stack, 'layered': layered, 'two-lcs': two_lcs,
             'shortcut': shortcut}
 
